@@ -454,9 +454,22 @@ def judge_e2e(path, seed, n):
         rem, own, meta = set(r.get("removed") or []), set(r.get("owned") or []), set(r.get("metaowned") or [])
         if r.get("err"):
             why.append("operation failed: " + r["err"])
-        if r.get("changed"):
+        if r.get("partial"):
+            # a sub-key level removal: exactly the selected members' engine keys go, only the meta record may change
+            sel = set(r.get("selowned") or [])
+            if rem != sel:
+                why.append("removed engine keys != keys of the selected members: not removed %s, removed but not selected %s"
+                           % (sorted(sel - rem)[:3], sorted(rem - sel)[:3]))
+            bad = set(r.get("changed") or []) - meta
+            if bad:
+                why.append("engine values other than the collection's meta record changed: %s" % sorted(bad)[:3])
+            if r.get("added"):
+                why.append("a removal created engine keys: %s" % r["added"][:3])
+        elif r.get("changed"):
             why.append("engine values of keys outside the addressed collection changed: %s" % r["changed"][:3])
-        if (r.get("op") or "").startswith("rejected"):
+        if r.get("partial"):
+            pass
+        elif (r.get("op") or "").startswith("rejected"):
             if rem:
                 why.append("a rejected write removed engine keys: %s" % sorted(rem)[:3])
             if len(r.get("added") or []) != 1:
